@@ -126,16 +126,19 @@ theorem C07_registered_held_partial (tr : Trace) (endT : Int) (hc : C07_Contract
 cache — is C18's and is checked here by the harness oracle only).**  When `Added(b, s)` fires, the browser's host has already
 processed a datagram carrying PTR(`s`) together with SRV, TXT and an address of the target, so the records a lookup needs
 were in one processed datagram (K5: the cache is filled before the callback).  Uses K7 (deliveries are of sent datagrams),
-`K6full` (every positive PTR a host sends is complete) and `K5added` (Added is caused by a processed positive PTR). -/
+`K6full` (every positive PTR a host sends is complete) and `K5added` (Added is caused by a processed positive PTR); both are outside
+`C07_Contracts` and monitored as `K6f`, `K5a`.  The harness oracle accepts the port / TXT / host of any version advertised up to the end of
+the lookup (after an `update` caches converge, not instantaneously) and any address set between the service's own and the host name's. -/
 theorem C07_lookup_partial (tr : Trace) (endT : Int) (h7 : K7 Cfg.paper tr endT = true) (h6 : K6full tr = true)
     (h5 : K5added tr = true) (t : Int) (b : Br) (s : Svc) (ha : (⟨t, .added b s⟩ : TEv) ∈ tr) :
     ∃ e ∈ dlvs tr, e.h = b.host ∧ e.t ≤ t ∧ posFull s e.items = true :=
   added_complete h7 h6 h5 ha
 
-/-- **One loss kills at most one**: two deliveries that K7 owes and that did not happen are the same delivery -/
+/-- **One lost datagram kills at most one opportunity**: two deliveries that K7 owes and that did not happen are deliveries of the
+same datagram (same send, hence same send time) — whether it was lost for one receiver or for all of them -/
 theorem C07_single_loss (tr : Trace) (endT : Int) (h7 : K7 Cfg.paper tr endT = true) (o1 o2 : Obl)
-    (h1 : o1 ∈ missing Cfg.paper tr endT) (h2 : o2 ∈ missing Cfg.paper tr endT) : o1 = o2 :=
-  k7b_unique h7 h1 h2
+    (h1 : o1 ∈ missing Cfg.paper tr endT) (h2 : o2 ∈ missing Cfg.paper tr endT) : o1.d = o2.d ∧ o1.t = o2.t :=
+  k7b_same h7 h1 h2
 
 /-- the same statements hold with the parameters computed from the source (what the driver evaluates) -/
 theorem C07_convergence_gen (tr : Trace) (endT : Int)
